@@ -48,8 +48,48 @@ func mutateDirective(r *rng.R, s string) string {
 	}
 }
 
+// walkDirective builds a `map PATH TARGET` line whose path follows REAL fields of the source type: through structs,
+// pointers (any number of levels) to structs and to non-structs, ending on a leaf, one element past a leaf, or on a name
+// that does not exist.
+func walkDirective(r *rng.R, g *tygen.Gen, s, t tygen.T) string {
+	var path []string
+	cur := s
+	for step := 0; step < 5; step++ {
+		u := g.Under(cur)
+		for {
+			p, ok := u.(tygen.Ptr)
+			if !ok {
+				break
+			}
+			u = g.Under(p.Elem)
+		}
+		st, ok := u.(tygen.Struct)
+		if !ok || len(st.Fields) == 0 {
+			// a leaf (possibly behind pointers): sometimes step past it
+			if r.Chance(60) {
+				path = append(path, rng.Pick(r, []string{"Oops", "F0", "F1"}))
+			}
+			break
+		}
+		f := st.Fields[r.Intn(len(st.Fields))]
+		path = append(path, f.Name)
+		cur = f.Type
+		if r.Chance(25) {
+			break
+		}
+	}
+	if len(path) == 0 {
+		path = []string{"F0", "Oops"}
+	}
+	target := "F0"
+	if ts, ok := g.Under(t).(tygen.Struct); ok && len(ts.Fields) > 0 {
+		target = ts.Fields[r.Intn(len(ts.Fields))].Name
+	}
+	return "map " + strings.Join(path, ".") + " " + target
+}
+
 func runC13(e *env) error {
-	e.rep.Rule = "cases = converter interfaces over types drawn from a grammar of everything Go allows in a field (basic kinds incl. uintptr/complex, named, pointers, slices, arrays, maps, structs, func, chan, interfaces incl. error and any, recursive and mutually recursive named types) with directive lines drawn from a pool of well-formed and malformed settings and mutated (dropped/inserted characters, regex metacharacters, very long paths) at converter, method and -g level; each converter is run through the real pipeline in process under recover() and a deadline, and a sample through the goverter binary (exit status 2 = Go panic). Outcome classes: ok | diagnostic | panic | timeout; a diagnostic must name the declaring file. non-trivial = the converter reached the generator or a directive parser; distinct = converter text"
+	e.rep.Rule = "cases = converter interfaces over types drawn from a grammar of everything Go allows in a field (basic kinds incl. uintptr/complex, named, pointers, slices, arrays, maps, structs, func, chan, interfaces incl. error and any, recursive and mutually recursive named types) with directive lines drawn from a pool of well-formed and malformed settings and mutated (dropped/inserted characters, regex metacharacters, very long paths), plus goverter:map paths that follow real fields of the source through structs and pointers to structs and non-structs and step past leaves at converter, method and -g level; each converter is run through the real pipeline in process under recover() and a deadline, and a sample through the goverter binary (exit status 2 = Go panic). Outcome classes: ok | diagnostic | panic | timeout; a diagnostic must name the declaring file. non-trivial = the converter reached the generator or a directive parser; distinct = converter text"
 	r := e.r.Fork(13)
 	nBatches, perBatch := 3, 120
 	if e.thorough {
@@ -80,12 +120,24 @@ func runC13(e *env) error {
 			&tygen.Decl{Name: "ErrBox", Under: tygen.Raw{Text: "struct { E error; A any; U uintptr }"}},
 			&tygen.Decl{Name: "ErrBox2", Under: tygen.Raw{Text: "struct { E error; A any; U uintptr }"}},
 		)
+		// paths through pointers to non-structs, double pointers, pointers to slices / funcs / chans / named non-structs
+		g.Decls = append(g.Decls,
+			&tygen.Decl{Name: "PathBox", Under: tygen.Raw{Text: "struct { Nested struct { Label *string; PP **RecA; N *int; Fn *func(); Ch *chan int; NN *PathNum }; P *PathInner; Name string }"}},
+			&tygen.Decl{Name: "PathInner", Under: tygen.Raw{Text: "struct { Q *[]int; M *map[string]int; A *[2]int }"}},
+			&tygen.Decl{Name: "PathNum", Under: tygen.Raw{Text: "int"}},
+			&tygen.Decl{Name: "PathOut", Under: tygen.Raw{Text: "struct { Name string }"}},
+		)
+		fixedWalks := []string{"map Nested.Label.Oops Name", "map Nested.PP.V Name", "map Nested.PP.Next.V Name", "map Nested.N.X Name", "map Nested.Fn.X Name",
+			"map Nested.Ch.X Name", "map Nested.NN.X Name", "map P.Q.Z Name", "map P.M.Z Name", "map P.A.Z Name", "map Name.X Name", "map P.Q Name", "map Nested.Label Name"}
 		fixedPairs := [][2]string{{"RecA", "RecB"}, {"MutA", "MutC"}, {"ErrBox", "ErrBox2"}, {"*RecA", "RecB"}, {"[]MutA", "[]*MutC"}, {"error", "error"}, {"any", "any"}, {"ErrBox", "ErrBox"}}
 		for i := 0; i < perBatch; i++ {
 			name := fmt.Sprintf("C%d", i)
 			var src, tgt string
+			walked := ""
 			if i < len(fixedPairs) {
 				src, tgt = fixedPairs[i][0], fixedPairs[i][1]
+			} else if i < len(fixedPairs)+len(fixedWalks) {
+				src, tgt, walked = "PathBox", "PathOut", fixedWalks[i-len(fixedPairs)]
 			} else {
 				s := g.Type(1 + r.Intn(3))
 				var t tygen.T
@@ -95,6 +147,9 @@ func runC13(e *env) error {
 					t = g.Type(1 + r.Intn(2))
 				}
 				src, tgt = s.Src(), t.Src()
+				if r.Chance(35) {
+					walked = walkDirective(r, g, s, t)
+				}
 			}
 			var b strings.Builder
 			b.WriteString("// goverter:converter\n")
@@ -108,6 +163,9 @@ func runC13(e *env) error {
 			b.WriteString("type " + name + " interface {\n")
 			if r.Chance(35) {
 				b.WriteString("\t// goverter:" + sanitizeLine(mutateDirective(r, rng.Pick(r, directivePool))) + "\n")
+			}
+			if walked != "" {
+				b.WriteString("\t// goverter:" + walked + "\n")
 			}
 			ret := tgt
 			if r.Chance(25) {
